@@ -40,7 +40,8 @@
      * every image of a unit view is a record of D (inclusion), and for page / slide / sheet formats the
        view of unit k is exactly the records assigned to anchors on unit k, in order.
    DON'T-CARE (documentation silent): once or once-per-anchor for a shared part; unanchored parts;
-     which relationship wins for a duplicated rId; content type of raw (FlateDecode) PDF samples;
+     which relationship wins for a duplicated rId; content type of raw (FlateDecode) PDF samples (a JPEG
+     is image/jpeg whatever /Filter form or cascade wraps it: the LAST filter names the data);
      unit_number of sheet formats (documented None) and of flow formats; "image/x-ms-bmp" for BMP.
 
    ALGORITHM-SHAPED PART  (Start / Step / Resolved): relationship-target normalisation as a path-segment
